@@ -82,12 +82,12 @@ PROPS = {
     "C10": {
         "world": "dsim.worlds.midcircuit.MidCircuitWorld",
         "tiers": {"quick": {"runs": 480, "chunk": 4, "run_cap_s": 900, "wall_cap_s": 800},
-                  "thorough": {"runs": 12000, "chunk": 8, "run_cap_s": 400, "wall_cap_s": 2700}},
+                  "thorough": {"runs": 12000, "chunk": 8, "run_cap_s": 1500, "wall_cap_s": 2700}},
         "rule": "one evaluation = one simulated run: 3-16 programs (1-5 qubits, 1-6 MEASURE/CMEASURE gates, dictionary / function / "
                 "class control, nesting depth <= 3, random initial states) executed on two long-lived backend objects: (exact) "
                 "every outcome string of the reference outcome tree simulated with desired_meas_result and compared (state, final "
                 "distribution, recorded probability, applied gates, records), zero-probability string must be refused; (shots) "
-                "n_shots in {1,7,200,2000} with the measurement outcomes drawn from the RNG seam, scripted draws forcing leaves and "
+                "n_shots in {1,7,200,500} with the measurement outcomes drawn from the RNG seam, scripted draws forcing leaves and "
                 "extremes, per-shot control flow + exact accounting of all_frequencies / marginals + seeded 6.5 sigma; (applied) "
                 "generate_applied_gates per outcome string. Distinct = (mode, width, CMEASURE?, control kind, tree size, initial state?) "
                 "tuples; non-trivial = run with >=3 programs or >=1 scripted draw.",
@@ -102,7 +102,7 @@ PROPS = {
     "C01": {
         "world": "dsim.worlds.device.GateSemanticsWorld",
         "tiers": {"quick": {"runs": 640, "chunk": 4, "run_cap_s": 900, "wall_cap_s": 800},
-                  "thorough": {"runs": 16000, "chunk": 8, "run_cap_s": 400, "wall_cap_s": 2700}},
+                  "thorough": {"runs": 16000, "chunk": 8, "run_cap_s": 1500, "wall_cap_s": 2700}},
         "rule": "one evaluation = one simulated run: 6-30 calls on four long-lived backend objects (cirq exact, cirq with shots, sympy, "
                 "shot-only stub): exact simulation of random circuits over the full gate set (multi-controlled parameterised gates, idle "
                 "qubits, user initial states in the advertised order) compared with the reference simulator incl. statevector index order; "
@@ -119,7 +119,7 @@ PROPS = {
     "C02": {
         "world": "dsim.worlds.device.ExpectationWorld",
         "tiers": {"quick": {"runs": 640, "chunk": 4, "run_cap_s": 900, "wall_cap_s": 800},
-                  "thorough": {"runs": 16000, "chunk": 8, "run_cap_s": 400, "wall_cap_s": 2700}},
+                  "thorough": {"runs": 16000, "chunk": 8, "run_cap_s": 1500, "wall_cap_s": 2700}},
         "rule": "one evaluation = one simulated run: 5-24 calls of get_expectation_value / get_variance / get_standard_error on four "
                 "long-lived backends (cirq exact, cirq shots, sympy, shot-only stub) for random operators (identity, complex "
                 "coefficients) and preparation circuits (initial statevectors, MEASURE gates with / without desired outcome); exact "
@@ -137,7 +137,7 @@ PROPS = {
     "C20": {
         "world": "dsim.worlds.phase.PhaseWorld",
         "tiers": {"quick": {"runs": 480, "chunk": 4, "run_cap_s": 900, "wall_cap_s": 800},
-                  "thorough": {"runs": 12000, "chunk": 8, "run_cap_s": 400, "wall_cap_s": 2700}},
+                  "thorough": {"runs": 12000, "chunk": 8, "run_cap_s": 1500, "wall_cap_s": 2700}},
         "rule": "one evaluation = one simulated run of 4-18 steps: iterative QPE (register 1-6, 1-3 shots, two simulate() calls per "
                 "solver object) on eigenstates with exactly representable eigenphases (diagonal and non-diagonal commuting "
                 "Hamiltonians through Trotter-Suzuki with order/steps/method varied, circuit unitaries) with every measurement draw "
@@ -155,7 +155,7 @@ PROPS = {
     "C07": {
         "world": "dsim.worlds.ansatz.AnsatzWorld",
         "tiers": {"quick": {"runs": 480, "chunk": 3, "run_cap_s": 900, "wall_cap_s": 1000},
-                  "thorough": {"runs": 8000, "chunk": 6, "run_cap_s": 600, "wall_cap_s": 2700}},
+                  "thorough": {"runs": 8000, "chunk": 6, "run_cap_s": 1500, "wall_cap_s": 2700}},
         "rule": "one evaluation = one simulated run: one long-lived ansatz object (class, molecule, encoding, ordering and options drawn "
                 "per run from the catalogue of all built-in ansaetze) driven through 4-14 steps: build_circuit (default / keyword incl. "
                 "'random' through the RNG seam / vector), update_var_params (zero-free vectors, exact zeros, sign flips, repeats, values "
@@ -174,7 +174,7 @@ PROPS = {
     "C08": {
         "world": "dsim.worlds.solver.SolverWorld",
         "tiers": {"quick": {"runs": 320, "chunk": 2, "run_cap_s": 900, "wall_cap_s": 1000},
-                  "thorough": {"runs": 6000, "chunk": 4, "run_cap_s": 600, "wall_cap_s": 2700}},
+                  "thorough": {"runs": 6000, "chunk": 4, "run_cap_s": 1500, "wall_cap_s": 2700}},
         "rule": "one evaluation = one simulated run: one VQESolver (ansatz, molecule or qubit Hamiltonian, encoding, ordering, ref_state / "
                 "projective / deflation / penalty options, exact or 2000 shots drawn per run) driven through 4-15 steps of "
                 "energy_estimation, operator_expectation (N, Sz, S^2, FermionOperator, QubitOperator; theta given or None), get_rdm (as a "
